@@ -8,6 +8,7 @@ import (
 	"path/filepath"
 	"runtime"
 	"sort"
+	"strconv"
 	"strings"
 	"sync"
 	"time"
@@ -316,6 +317,7 @@ func main() {
 			os.Exit(doReplay(*prop, *replay))
 		}
 	}
+	go memoryGuard(*prop, *seed, *replay)
 	run := NewRun(*prop, *tier, *seed)
 	run.Trusted = []string{"Lean 4.33 kernel", "axioms: propext, Classical.choice, Quot.sound only (audited per theorem)",
 		"tools/extract (go/ast → Lean constants)", "correspondence harness + driver canonicalisation"}
@@ -356,6 +358,60 @@ func main() {
 }
 
 var replayExec = map[string]Executor{}
+
+// memoryGuard: a check must never take the machine down. Code under test that allocates without bound (a VM or library
+// function looping on a corrupted state; seen with a seeded change: 49 GB before the kernel killed the process) is stopped
+// when the process exceeds VERIF_MEM_LIMIT_GB (default 20) resident: the cases in flight are written as replays and
+// reported as a violation. The unchanged tree stays far below the limit (quick tier < 2 GB, thorough tier < 8 GB).
+func memoryGuard(prop string, seed int64, replaying string) {
+	limitGB := 20
+	if v, err := strconv.Atoi(os.Getenv("VERIF_MEM_LIMIT_GB")); err == nil && v > 0 {
+		limitGB = v
+	}
+	limit := int64(limitGB) << 30
+	page := int64(os.Getpagesize())
+	for {
+		time.Sleep(200 * time.Millisecond)
+		b, err := os.ReadFile("/proc/self/statm")
+		if err != nil {
+			return
+		}
+		f := strings.Fields(string(b))
+		if len(f) < 2 {
+			return
+		}
+		pages, _ := strconv.ParseInt(f[1], 10, 64)
+		if pages*page < limit {
+			continue
+		}
+		if replaying != "" {
+			fmt.Printf("replay: the process exceeded %d GB resident\nVIOLATION property=%s replay=%s\n", limitGB, prop, replaying)
+			os.Exit(1)
+		}
+		inflightMu.Lock()
+		n := 0
+		for id, ops := range inflight {
+			if n >= 16 {
+				break
+			}
+			p := writeReplay(prop, fmt.Sprintf("crash-seed%d-memory%d", seed, n), map[string]interface{}{
+				"property": prop, "kind": "CRASH", "seed": seed, "case": id, "ops": opsToStrings(ops),
+				"what":            fmt.Sprintf("the process exceeded %d GB resident while this case (and %d others) was running: unbounded allocation in the code under test; replaying the case alone shows whether it is the one", limitGB, len(inflight)-1),
+				"failing_request": "X memory => unbounded allocation", "driver_reply": "X memory",
+			})
+			fmt.Printf("VIOLATION property=%s replay=%s\n", prop, p)
+			n++
+		}
+		if n == 0 {
+			p := writeReplay(prop, fmt.Sprintf("crash-seed%d-memory", seed), map[string]interface{}{
+				"property": prop, "kind": "CRASH", "seed": seed, "case": -9999,
+				"what": fmt.Sprintf("the process exceeded %d GB resident outside any case (a runner's own program families): re-run the check with this seed", limitGB),
+			})
+			fmt.Printf("VIOLATION property=%s replay=%s\n", prop, p)
+		}
+		os.Exit(1)
+	}
+}
 
 // wholeRunCase: CaseIdx (≤ -9000) of the runner self-check a replay file records; 0 = not replaying one.
 var wholeRunCase int
